@@ -85,3 +85,11 @@ def fill(C, PENDING):
       "recurrences, alternating maps, precalculated and fixed zones round-trip with identical behaviour; all 724 rule-based zones of both real files must "
       "re-encode to their original bytes, a mismatch being attributed to the field where the bytes first differ.",
       "Codec classes are internal (no public surface): if they disappear the check is inconclusive. Trusts the independent reader's understanding of the format.", "§3 C14")
+
+    C("C20", "fault_enumeration", "runtime monitoring: fault injection into the real database bytes + exception-escape monitor + line-count promptness monitor + RLIMIT_AS",
+      "Truncations (every prefix in thorough), single-byte substitutions (every position of every zone body, delivered in a reduced carrier stream, in "
+      "thorough), k-byte substitutions, insertions and deletions are applied to both real files; each damaged stream is loaded, its ids listed and its zones "
+      "fetched under a memory ceiling; any outcome other than success or InvalidPyodaDataError is a violation keyed by exception type and raising function; "
+      "a case flagged by the wall watchdog is re-run under a sys.monitoring line counter and violates only if it executes more than 50x the lines of an intact load.",
+      "Fault model limited to k<=4 byte corruption and single truncation; for faults inside one zone field of the full file only the affected zones plus a "
+      "seeded sample are fetched.", "§3 C20")
